@@ -65,6 +65,10 @@ def tie(tier, seed, replay):
     from .. import c02_latagg
     latagg = c02_latagg.check(tier, seed + 1)
     mism += latagg["mismatches"]
+    # real write contention: few big ascent_par! runs (10^4-10^5 keys, pools of 4-16 threads) against the python specification
+    from .. import par_contention
+    cont = par_contention.run(tier, seed, tag="c02")
+    mism += cont["mismatches"]
     distinct, dist = set(), {}
     for jid, (r, irp, pool, seeds) in meta.items():
         c = r["case"]
@@ -99,5 +103,5 @@ def tie(tier, seed, replay):
                 trusted_base=["perturbation hook (ascent/src/verif_hooks.rs + call sites emitted by codegen under feature verif_hooks)", "FRONT hook; generated crates",
                               "RESIDUE (explored, not proved): real DashMap / RwLock / Mutex / boxcar implementations, rayon work stealing, memory ordering of the Relaxed __changed flag; the schedule space of the real binary is sampled, not enumerated"],
                 assumptions=["the modelled atomic steps (Engine/ParStep.v) are linearizable in the real libraries"],
-                extra=dict(cases_skipped_model_too_slow=nskipped, parallel_lattice_runs=lat["evaluations"], parallel_lattice_distribution=lat["distribution"],
+                extra=dict(contention_family=dict(rounds=cont["evaluations"], distribution=cont["distribution"]), cases_skipped_model_too_slow=nskipped, parallel_lattice_runs=lat["evaluations"], parallel_lattice_distribution=lat["distribution"],
                            parallel_lattice_aggregate_runs=latagg["evaluations"], parallel_lattice_aggregate_distribution=latagg["distribution"]))
